@@ -145,8 +145,8 @@ theorem droppedB_of (s : St) (c : Change) (d : Nat × Batch) (g : Group)
   refine ⟨g, hg, ?_⟩
   simp [hi, hc]
 
-theorem top_init_mr (b mr : Nat) (dec : Batch → Bool) (hb : 0 < b) :
-    Top { batchSz := b, maxRetries := mr, decodable := dec } := by
+theorem top_init_mr (b mr : Nat) (dec : Batch → Bool) (st : Nat) (gu : Bool) (hb : 0 < b) :
+    Top { batchSz := b, maxRetries := mr, decodable := dec, failStatus := st, giveUpOnRejection := gu } := by
   have h := top_init b hb
   exact ⟨base_transfer _ _ _ h.base rfl rfl rfl rfl rfl rfl rfl rfl rfl rfl,
     cov_transfer _ _ _ h.cov (fun x hx _ => hx) rfl rfl rfl rfl rfl rfl, h.logOk, h.sorted, h.frontLe⟩
@@ -155,16 +155,16 @@ theorem top_init_mr (b mr : Nat) (dec : Batch → Bool) (hb : 0 < b) :
 branches of the leader loop made explicit: for every batch size, EVERY retry limit `mr`
 (0 = none) and EVERY predicate `dec` telling which batches' stored bytes decompress, under the
 same histories as `at_least_once_partial`, every change has been POSTed with its entry's
-index, or was in an event the leader gave up on (`dropped`: retry limit exhausted, or
-decompression failed), or lies at or below an HWM announced by another node. -/
-theorem at_least_once_or_dropped (b mr : Nat) (dec : Batch → Bool) (ops : List Op) (hb : 0 < b) (hwf : wfOps 0 ops) :
+index, or was in an event the leader gave up on (`dropped`: retry limit exhausted,
+decompression failed, or — what-if switch `gu` — the endpoint answered a 4xx status `st`), or lies at or below an HWM announced by another node. -/
+theorem at_least_once_or_dropped (b mr : Nat) (dec : Batch → Bool) (st : Nat) (gu : Bool) (ops : List Op) (hb : 0 < b) (hwf : wfOps 0 ops) :
     ∀ c ∈ changesOf ops,
-      deliveredB (run { batchSz := b, maxRetries := mr, decodable := dec } (ops ++ heal)) c = true ∨
-      droppedB (run { batchSz := b, maxRetries := mr, decodable := dec } (ops ++ heal)) c = true ∨
-      c.1 ≤ (run { batchSz := b, maxRetries := mr, decodable := dec } (ops ++ heal)).maxIn := by
+      deliveredB (run { batchSz := b, maxRetries := mr, decodable := dec, failStatus := st, giveUpOnRejection := gu } (ops ++ heal)) c = true ∨
+      droppedB (run { batchSz := b, maxRetries := mr, decodable := dec, failStatus := st, giveUpOnRejection := gu } (ops ++ heal)) c = true ∨
+      c.1 ≤ (run { batchSz := b, maxRetries := mr, decodable := dec, failStatus := st, giveUpOnRejection := gu } (ops ++ heal)).maxIn := by
   intro c hc
-  have h0 := top_init_mr b mr dec hb
-  have hw0 : wfOps (lastIdx ({ batchSz := b, maxRetries := mr, decodable := dec } : St).log) ops := by simpa [lastIdx] using hwf
+  have h0 := top_init_mr b mr dec st gu hb
+  have hw0 : wfOps (lastIdx ({ batchSz := b, maxRetries := mr, decodable := dec, failStatus := st, giveUpOnRejection := gu } : St).log) ops := by simpa [lastIdx] using hwf
   have ht := top_run _ ops h0 hw0
   obtain ⟨_, hlogE⟩ := log_of_run _ ops h0 hw0
   rw [run_append]
@@ -175,10 +175,10 @@ theorem at_least_once_or_dropped (b mr : Nat) (dec : Batch → Bool) (ops : List
   cases op with
   | entry e =>
     simp only at hcop
-    have he : e ∈ (run { batchSz := b, maxRetries := mr, decodable := dec } ops).log := hlogE e hop
+    have he : e ∈ (run { batchSz := b, maxRetries := mr, decodable := dec, failStatus := st, giveUpOnRejection := gu } ops).log := hlogE e hop
     have hs := (ht.logOk e he).2.2
-    obtain ⟨g, hg, hgi, hcg, hc1⟩ := change_in_group (run (run { batchSz := b, maxRetries := mr, decodable := dec } ops) heal).keepIdx e hs c hcop
-    have hgG : g ∈ groups (run (run { batchSz := b, maxRetries := mr, decodable := dec } ops) heal) := by
+    obtain ⟨g, hg, hgi, hcg, hc1⟩ := change_in_group (run (run { batchSz := b, maxRetries := mr, decodable := dec, failStatus := st, giveUpOnRejection := gu } ops) heal).keepIdx e hs c hcop
+    have hgG : g ∈ groups (run (run { batchSz := b, maxRetries := mr, decodable := dec, failStatus := st, giveUpOnRejection := gu } ops) heal) := by
       rw [mem_groups]; exact ⟨e, by rw [hlog]; exact he, hg⟩
     rcases done_of_drained _ htF hbat hheld hne g hgG with (⟨d, hd, hgd⟩ | ⟨d, hd, hgd⟩) | h
     · left; exact deliveredB_of _ c d g hd hgd (by rw [hgi, hc1]) hcg
@@ -202,7 +202,7 @@ theorem at_least_once_or_retry_limit (b mr : Nat) (ops : List Op) (hb : 0 < b) (
       deliveredB (run { batchSz := b, maxRetries := mr } (ops ++ heal)) c = true ∨
       droppedB (run { batchSz := b, maxRetries := mr } (ops ++ heal)) c = true ∨
       c.1 ≤ (run { batchSz := b, maxRetries := mr } (ops ++ heal)).maxIn :=
-  at_least_once_or_dropped b mr (fun _ => true) ops hb hwf
+  at_least_once_or_dropped b mr (fun _ => true) 503 false ops hb hwf
 
 /-! ### the stored form of a FIFO item
 
@@ -279,6 +279,44 @@ theorem at_least_once_partial (b : Nat) (ops : List Op) (hb : 0 < b) (hwf : wfOp
     rw [this] at h
     simp at h
   · exact Or.inr h
+
+/-! ### how the endpoint fails
+
+The sink accepts 200 and 202; every other answer (any status of any class) and every transport
+error is a failed attempt, and the leader loop retries failed attempts without looking at the
+reason. `failStatus` is what the endpoint answers during the outages of a history. -/
+
+/-- **At least once, whatever a failing endpoint answers**: `at_least_once_partial` for EVERY
+failure status (400, 401, 404, 413, 429, 500, 503, 0 = no answer, …): outages are transient
+whatever they look like, nothing is given up on. -/
+theorem at_least_once_for_every_failure_status (b st : Nat) (ops : List Op) (hb : 0 < b) (hwf : wfOps 0 ops) :
+    ∀ c ∈ changesOf ops,
+      deliveredB (run { batchSz := b, failStatus := st } (ops ++ heal)) c = true ∨
+      c.1 ≤ (run { batchSz := b, failStatus := st } (ops ++ heal)).maxIn := by
+  intro c hc
+  rcases at_least_once_or_dropped b 0 (fun _ => true) st false ops hb hwf c hc with h | h | h
+  · exact Or.inl h
+  · exfalso
+    have := (run_no_drop { batchSz := b, failStatus := st } (ops ++ heal) rfl rfl (fun _ => rfl)).1
+    unfold droppedB at h
+    rw [this] at h
+    simp at h
+  · exact Or.inr h
+
+/-- **Witness: treating a 4xx answer as a final rejection loses changes with no retry limit
+set.** The endpoint answers 404 for a while (a route being redeployed), the leader holds
+entry 5; with the rejection rule it forgets the event; after the endpoint is back entry 6 is
+delivered, the HWM passes 5, change 5.0 is never delivered. Without the rule (the tree), or
+with the rule and a 503/429 answer, it is delivered. -/
+theorem rejection_rule_witness :
+    let h : List Op := [.leader true, .endpoint false, .entry ⟨5, false, [1]⟩, .endpoint true, .entry ⟨6, false, [1]⟩] ++ heal
+    let bad := run { batchSz := 1, failStatus := 404, giveUpOnRejection := true } h
+    (deliveredB bad (5, 0) = false ∧ droppedB bad (5, 0) = true ∧ deliveredB bad (6, 0) = true ∧
+      bad.hwm = 6 ∧ bad.maxRetries = 0) ∧
+    deliveredB (run { batchSz := 1, failStatus := 404 } h) (5, 0) = true ∧
+    deliveredB (run { batchSz := 1, failStatus := 503, giveUpOnRejection := true } h) (5, 0) = true ∧
+    deliveredB (run { batchSz := 1, failStatus := 429, giveUpOnRejection := true } h) (5, 0) = true := by
+  decide
 
 /-- **The part of `at_least_once_full` that holds, with every hypothesis spelled out**: the
 full statement's own hypotheses (batch size, log order) plus (1) the exclusion
@@ -369,6 +407,20 @@ theorem flate_decompress_unbounded :
        "if err != nil { return nil, err }", "_, err = w.Write(data)",
        "if err != nil { w.Close() return nil, err }", "err = w.Close()",
        "if err != nil { return nil, err }", "return buf.Bytes(), nil"] := by decide
+
+/-- cdc/service.go `leaderLoop` and cdc/sink.go `HTTPSink.Write`: inside the retry loop the
+only things tested are: success, the configured retry limit, the back-off policy and cap, the
+stop signal and the back-off timer — never the KIND of failure; and the sink distinguishes
+exactly "200 or 202" from everything else. This is the model's `up`/`failStatus`: whatever a
+failing endpoint answers, the attempt is retried (`givesUpOf … false …`). -/
+theorem retry_loop_ignores_the_failure_kind :
+    RqModel.Gen.CdcPipe.leaderRetryLoopConds =
+      ["if err == nil", "if s.transmitMaxRetries != retryForever && nAttempts == s.transmitMaxRetries",
+       "if s.transmitRetryPolicy == ExponentialRetryPolicy", "if retryDelay > s.transmitMaxBackoff",
+       "case <-stop", "case <-t.C"] ∧
+    RqModel.Gen.CdcPipe.httpSinkWriteConds =
+      ["if err != nil", "if err != nil",
+       "if resp.StatusCode != http.StatusOK && resp.StatusCode != http.StatusAccepted"] := by decide
 
 /-- cdc/service.go `leaderLoop`: when `flate.Decompress(ev.Data)` fails the loop forgets the
 event and goes on to the next one — the model's decompress DROP (`pump`, `undecodable`) -/
